@@ -424,6 +424,8 @@ func checkC03(r *Report) {
 	r.floor("C03/EXHAUSTIVE", "unary operator token kinds in the table", len(unary), 9)
 	recycleCompleteRule(r, loadResolve("", true), "C03/RECYCLE-COMPLETE")
 	unitOpenRule(r, loadResolve("", true), "C03/UNIT-OPEN")
+	nCC := compareAfterCompleteRule(r, loadResolve("", true), "C03/COMPARE-AFTER-COMPLETE")
+	r.floor("C03/COMPARE-AFTER-COMPLETE", "completions (fill/setTail) of bounds in package semver", nCC, 4)
 }
 
 // ---------------------------------------------------------------- C16 ----
